@@ -496,7 +496,7 @@ def c05(ctx):
     binary = build()
     mc = Bg(lambda: model_check(ctx, "MC_Iso", workers=2, timeout=900))
     tr = os.path.join(ctx.traces, "sha.ndjson")
-    n = 220 if ctx.quick() else 4000
+    n = 520 if ctx.quick() else 4000
     sv(binary, ["c14n", "--mode", "sha", "--n", n, "--seed", ctx.seed, "--out", tr], ctx=ctx)
     trace = read_trace(tr)
     mism = trace_check(ctx, "Trace_C14n", tr, timeout=6000)
